@@ -49,7 +49,9 @@ Bases ==
                           <<"$", "[", "?", "!", "(", "@", ".", "a", "||", "@", ".", "b", ")", "&&", "@", ".", "a", "!=", "1.0e16", "]">>,
                           <<"$", "[", "?", "count(", "length(", "@", ".", "a", ")", ")", "==", "1", "]">>, <<"$", "..", "[", "-1", "]">>,
                           <<"$", "[", "?", "value(", "count(", "@", ".", "*", ")", ")", "==", "1", "]">>,
-                          <<"$", "..", "[", "?", "search(", "@", ",", "'a'", ")", "]">>, <<"$", "[", "?", "@", ".", "a", "==", "1e23", "]">> }
+                          <<"$", "..", "[", "?", "search(", "@", ",", "'a'", ")", "]">>, <<"$", "[", "?", "@", ".", "a", "==", "1e23", "]">>,
+                          \* slices written without brackets (a non-standard shorthand), two in a row
+                          <<"$", ".", "1", ":", "-1", ".", "0", ":", "1">>, <<"$", "..", "1", ":", ".", ":", "1", ":", "-1">> }
     [] Lang = "pointer" -> { <<"/", "a", "/", "0">>, <<"/", "~0", "/", "~1">>, <<>>, <<"/", "-">>, <<"/", "EACUTE", "/", "\\u0041">> }
     [] Lang = "relptr" -> { <<"0">>, <<"1", "/", "a">>, <<"0", "+", "1">>, <<"2", "#">>, <<"0", "-", "10", "/", "a">> }
     [] OTHER -> {}
